@@ -12,6 +12,7 @@ package main
 //	                                                                        -> collide|distinct
 //	vt txid=<B|M|X> base=<tx> mut=<tx>   State.VerifyTx on the transaction `mut`, obtained from the accepted
 //	             transaction `base` by one mutation; txid B = the id of base is kept, M = recomputed, X = garbage.
+//	             The base itself is verified first in the same step (same signature bytes), then the mutant.
 //	             Compared with the Lean decision model when base is a v3 transaction, else "-".   -> accept|reject
 //
 // <tx> is one token: fields joined by ';' (see specOf).  In vt lines byte strings may be symbolic:
@@ -431,6 +432,7 @@ func getState() *state.State {
 		xvlib.Die("new state: %v", err)
 	}
 	s.SetAclMG(fakeAcl{})
+	attachContracts(s)
 	if err := s.Play(rb.Blockid); err != nil {
 		xvlib.Die("play root: %v", err)
 	}
@@ -525,6 +527,11 @@ func execVt(line string, oracle bool) (string, int32) {
 	default:
 		mut.Txid = sha("xv-garbage-id")
 	}
+	// the signed base goes through VerifyTx first (with the very signature bytes the mutant inherits): whatever the
+	// implementation keeps from one verification to the next (result caches) is part of the input of the second
+	if bok, _ := getState().VerifyTx(base); !bok && oracle {
+		out.Violate(xvlib.Violation{Key: "signed-tx-rejected", What: "the correctly signed base transaction of a mutation line is rejected by VerifyTx", Ops: []string{line}, Impl: []string{"base: reject"}})
+	}
 	ok, verr := getState().VerifyTx(mut)
 	if !ok && verr == nil && oracle {
 		// Chain.SubmitTx (kernel/engines/xuperos/chain.go) consults only the error of VerifyTx before it calls DoTx:
@@ -549,6 +556,8 @@ func execC07(line string, oracle bool) string {
 		return execDigest(w[0], parseSpec(w[1]))
 	case "k1":
 		return execK1(w, oracle)
+	case "vc":
+		return execVc(line, oracle)
 	case "vt":
 		res, ver := execVt(line, oracle)
 		if oracle {
@@ -589,9 +598,10 @@ func judgeVt(line, res string) {
 			case strings.HasPrefix(cls, "sigarea:"):
 				key = "signature-area-malleable"
 			}
+			ops := []string{line}
 			out.Violate(xvlib.Violation{Key: key,
 				What: fmt.Sprintf("VerifyTx accepts a transaction obtained from a signed one by changing %s (txid %s)", cls, map[string]string{"B": "kept", "M": "recomputed", "X": "garbage"}[m["txid"]]),
-				Ops:  []string{line}, Impl: []string{res}})
+				Ops:  ops, Impl: []string{res}})
 		}
 	}
 }
@@ -849,6 +859,36 @@ func schemaMutants(tx *pb.Transaction, form string) []txMutant {
 			slots(t)[i].Sign = symSig(tok[:strings.LastIndex(tok, ".")] + ".O")
 		})
 	}
+	// a VALID entry of another signer of the same transaction (same digest, public key and signature both copied)
+	// presented in this signer's slot: the key does not hash to the address being identified.  Whatever the
+	// implementation remembers about entries it has already checked (the base is verified first, the initiator
+	// before the listed signers) must not stand in for the address <-> key binding.
+	slotName := func(i int) string {
+		if i >= len(tx.InitiatorSigns) {
+			return "AuthRequireSigns"
+		}
+		return "InitiatorSigns"
+	}
+	for i := range slots(tx) {
+		if form == "acctini" {
+			break // account initiator: entries are identified by their own key (the ACL decides), listed signer already verified
+		}
+		for j := range slots(tx) {
+			i, j := i, j
+			if i == j || slots(tx)[i].PublicKey == slots(tx)[j].PublicKey {
+				continue
+			}
+			emit("signature:"+slotName(i)+":valid-entry-of-other-signer", func(t *pb.Transaction) {
+				src, dst := slots(t)[j], slots(t)[i]
+				dst.PublicKey, dst.Sign = src.PublicKey, append([]byte{}, src.Sign...)
+			})
+		}
+	}
+	if tx.XuperSign != nil && len(tx.XuperSign.PublicKeys) > 1 {
+		emit("signature:XuperSign:pubkeys-swapped", func(t *pb.Transaction) {
+			t.XuperSign.PublicKeys[0], t.XuperSign.PublicKeys[1] = t.XuperSign.PublicKeys[1], t.XuperSign.PublicKeys[0]
+		})
+	}
 	if len(tx.InitiatorSigns) > 0 && len(tx.AuthRequireSigns) > 0 && form != "acctini" {
 		emit("signature:swap-initiator-and-signer", func(t *pb.Transaction) {
 			t.InitiatorSigns[0], t.AuthRequireSigns[0] = t.AuthRequireSigns[0], t.InitiatorSigns[0]
@@ -993,6 +1033,8 @@ func genC07(tier string, rng *xvlib.Rng, run func(string, bool)) {
 			}
 		}
 	}
+	// 4. outputs spent by the contract code the transaction carries
+	genVc(thorough, rng, run)
 	out.Stats.Exhaustive = false
 	out.Stats.Rule = fmt.Sprintf("d3/i3/d1: %d random transactions per encoder (all fields, empty/nil variants, versions 3,4,100 / 1,2), extracted schema bytes double-SHA-256 checked against MakeTxDigestHash and MakeTransactionID; vt: accepted transactions of 5 forms (address initiator, 2 extra signers, account-owned input via ACL, account initiator, aggregated XuperSign) × versions 3,2,1 × every single-field mutation reached by walking the %d leaf paths of the Transaction message (flip/truncate/append/clear, +1, toggle, map key), list grow/drop/dup/swap, signature by another key / with another public key / replayed from another transaction / swapped, signer and owner replaced — each once with the old txid kept and once with the txid recomputed —, plus re-signed variants (the signers sign again) whose spent output belongs to an address/account that did not sign — through the real State.VerifyTx; distinct by op line", nPre, len(schemas.TxFields))
 	out.Stats.Notes = append(out.Stats.Notes,
